@@ -1,7 +1,7 @@
 (* Props/C09.v - The case report states what was computed.
    Only statements; every proof is [exact <lemma>] from Proofs/. *)
 From Coq Require Import String Ascii QArith Qabs ZArith List Bool.
-From Verif Require Import Model.Fmt Model.Report Gen.ReportLabels Proofs.FmtProofs Proofs.ReportProofs Proofs.ReportGenProofs.
+From Verif Require Import Model.Fmt Model.Float Model.Report Gen.ReportLabels Proofs.FmtProofs Proofs.FloatProofs Proofs.ReportProofs Proofs.ReportGenProofs.
 Import ListNotations.
 
 (* ---- figures: rounded to the displayed precision --------------------------------------------------------- *)
@@ -47,6 +47,25 @@ Theorem C09_rows :
 Proof. exact table_rows_spec. Qed.
 Print Assumptions C09_rows.
 
+(* The same for tables whose cells are EXPRESSIONS over the snapshot series (PT[i*k]/PT[0], X[i]/1E6, (H0-R[i])*100/H0 ...),
+   which is how the correspondence runs them: exactly n rows in order; row i is the year label i+off and, in column j, the
+   value the float model gives to the column's expression with every per-row series read at index i*k. *)
+Theorem C09_rows_expr :
+  forall n off k segs cols rows, etable n off k segs cols = Some rows ->
+  length rows = n /\
+  forall i, (i < n)%nat ->
+    exists vs s, nth_error rows i = Some s /\ length vs = length cols /\
+      (forall j e, nth_error cols j = Some e -> exists v, seval (Some (i * k)%nat) e = Some v /\ nth_error vs j = Some v) /\
+      render_line segs (year_cell (i + off) :: map (fun x => Num (fl_fval x)) vs) = Some s.
+Proof. exact etable_rows_spec. Qed.
+Print Assumptions C09_rows_expr.
+
+(* a column that is just a series reads it at the row's index and fails (IndexError) when the series is too short *)
+Theorem C09_rows_expr_series :
+  forall c idx, seval (Some idx) (plain_col c) = match nth_error c idx with Some x => not_bad x | None => None end.
+Proof. exact plain_col_reads. Qed.
+Print Assumptions C09_rows_expr_series.
+
 (* the only ways a table is not written: a series shorter than some row's index (Python's IndexError), or a template
    whose fields do not match the cells *)
 Theorem C09_rows_failure :
@@ -82,6 +101,44 @@ Theorem C09_writer_row_templates :
   forall t, In t report_templates -> row_template_ok t = true.
 Proof. exact templates_ok. Qed.
 Print Assumptions C09_writer_row_templates.
+
+(* ---- derived figures: computed by the float model from the snapshot quantities ---------------------------- *)
+(* A double is m * 2^e.  Rounding an exact integer (scaled by 2^e) to 53 bits moves it by at most half a unit of the last
+   kept bit, ties included, for EVERY m and e; the result has at most 53 bits and is zero only for zero. *)
+Theorem C09_float_round_half_ulp :
+  forall m e m' e', round53 m e = (m', e') ->
+  (e <= e' /\ 2 * Z.abs (m' * 2 ^ (e' - e) - m) <= 2 ^ (e' - e) /\ Z.abs m' <= 2 ^ 53 /\ (m = 0 <-> m' = 0))%Z.
+Proof. exact round53_spec. Qed.
+Print Assumptions C09_float_round_half_ulp.
+
+(* x + y, x - y, x * y of the model: the EXACT result (s, in units of 2^e0) rounded once - the figure Coq prints for a sum,
+   a difference, a product (x 100, x 24) of snapshot quantities is within half a unit of its last bit of the true one *)
+Theorem C09_float_add :
+  forall mx ex my ey m e, fadd (FD mx ex) (FD my ey) = Some (FD m e) ->
+  let e0 := Z.min ex ey in let s := (mx * 2 ^ (ex - e0) + my * 2 ^ (ey - e0))%Z in
+  ((s = 0 /\ m = 0) \/ (s <> 0 /\ e0 <= e /\ 2 * Z.abs (m * 2 ^ (e - e0) - s) <= 2 ^ (e - e0) /\ Z.abs m <= 2 ^ 53 /\ m <> 0))%Z.
+Proof. exact fadd_half_ulp. Qed.
+Print Assumptions C09_float_add.
+
+Theorem C09_float_sub :
+  forall mx ex my ey m e, fsub (FD mx ex) (FD my ey) = Some (FD m e) ->
+  let e0 := Z.min ex ey in let s := (mx * 2 ^ (ex - e0) - my * 2 ^ (ey - e0))%Z in
+  ((s = 0 /\ m = 0) \/ (s <> 0 /\ e0 <= e /\ 2 * Z.abs (m * 2 ^ (e - e0) - s) <= 2 ^ (e - e0) /\ Z.abs m <= 2 ^ 53 /\ m <> 0))%Z.
+Proof. exact fsub_half_ulp. Qed.
+Print Assumptions C09_float_sub.
+
+Theorem C09_float_mul :
+  forall mx ex my ey m e, fmul (FD mx ex) (FD my ey) = Some (FD m e) ->
+  let s := (mx * my)%Z in let e0 := (ex + ey)%Z in
+  ((s = 0 /\ m = 0) \/ (s <> 0 /\ e0 <= e /\ 2 * Z.abs (m * 2 ^ (e - e0) - s) <= 2 ^ (e - e0) /\ Z.abs m <= 2 ^ 53 /\ m <> 0))%Z.
+Proof. exact fmul_half_ulp. Qed.
+Print Assumptions C09_float_mul.
+
+(* the printed maximum / minimum of a series is one of its elements *)
+Theorem C09_extremes_are_elements :
+  forall l x, (np_max l = Some x -> In x l) /\ (np_min l = Some x -> In x l).
+Proof. intros l x. split; [apply np_max_in|apply np_min_in]. Qed.
+Print Assumptions C09_extremes_are_elements.
 
 (* ---- units: label == CurrentUnits at print time; value x 100 only as a percentage -------------------------- *)
 (* A line that prints the value itself and takes its unit text from CurrentUnits states the quantity, for every
@@ -159,6 +216,16 @@ Example C09_ex_cashflow :
   cashflow_table 2 1 1 [Fld KF 3 0; Lit " "; Fld KF 5 2; Lit " "; Fld KF 5 2] (Fin (3#2)) [[Fin 0; Fin 7; Fin 8]]
   = Some ["  0  0.00  0.00"; "  1  7.00  1.50"; "  2  8.00  1.50"]%string.
 Proof. vm_compute. reflexivity. Qed.
+
+(* 0.1 + 0.2 = 0.30000000000000004 = 5404319552844596 * 2^-54 (not 0.3); double(2.675) * 100 rounds to 267.5; average 7/3; ratio 6/8 *)
+Example C09_ex_float :
+  fadd (FD 3602879701896397 (-55)) (FD 3602879701896397 (-54)) = Some (FD 5404319552844596 (-54))
+  /\ fmul (FD 3011692045189939 (-50)) (FD 100 0) = Some (FD 4705768820609280 (-44))
+  /\ np_average [FD 1 0; FD 2 0; FD 4 0] = Some (FD 5254199565265579 (-51))
+  /\ seval (Some 2%nat) (SDiv (SRow (ALeaf [FD 8 0; FD 9 0; FD 6 0])) (SIdx (ALeaf [FD 8 0; FD 9 0; FD 6 0]) 0)) = Some (FD 6755399441055744 (-53))
+  /\ etable 2 1 2 [Fld KF 2 0; Lit " "; Fld KF 6 3] [SDiv (SRow (ALeaf [FD 8 0; FD 9 0; FD 6 0])) (SIdx (ALeaf [FD 8 0; FD 9 0; FD 6 0]) 0)]
+     = Some [" 1  1.000"; " 2  0.750"]%string.
+Proof. vm_compute. repeat split; reflexivity. Qed.
 
 Example C09_ex_units : printed_unit UPref (convert_output {| q_val := 5%Q; q_cur := "MW"; q_pref := "MW" |} "kW" 1000%Q) = "MW"%string
   /\ q_cur (convert_output {| q_val := 5%Q; q_cur := "MW"; q_pref := "MW" |} "kW" 1000%Q) = "kW"%string
